@@ -890,6 +890,10 @@ func filterRemovetags(in *Value, param *Value) (*Value, *Error) {
 
 func filterRjust(in *Value, param *Value) (*Value, *Error) {
 	padding := param.Integer()
+	if padding < 0 {
+		// a negative width would make fmt pad on the right side
+		padding = 0
+	}
 	if padding > maxCharPadding {
 		return nil, &Error{
 			Sender:    "filter:rjust",
